@@ -42,7 +42,11 @@ Record mcfg := mkcfg {
   udp_max : Z;          (* channel->udp_max_queries (0 = unlimited) *)
   has_cb : bool;        (* a sock_state_cb is registered *)
   stayopen : bool;      (* ARES_FLAG_STAYOPEN *)
-  opt_sndbuf : bool; opt_rcvbuf : bool; opt_dev : bool; opt_bind : bool   (* what ares_socket_configure has to do *)
+  opt_sndbuf : bool; opt_rcvbuf : bool; opt_dev : bool; opt_bind : bool;  (* what ares_socket_configure has to do *)
+  (* the application's socket function table *)
+  has_gsn : bool;          (* agetsockname != NULL (never with the legacy ares_set_socket_functions) *)
+  has_bind : bool;         (* abind != NULL *)
+  sockopt_visible : bool   (* asetsockopt reaches the socket layer (the legacy table answers ENOSYS itself) *)
 }.
 
 (* ------------------------------------------------------------------------------------ *)
@@ -218,21 +222,21 @@ Definition open_connection (cfg : mcfg) (k : nat) (tcp : bool) (env : open_env) 
   else
     let e0 := [ESocket k tcp] in
     (* ares_socket_configure *)
-    let e1 := e0 ++ opt_ev (opt_sndbuf cfg) (ESetsockopt k) in
+    let e1 := e0 ++ opt_ev (opt_sndbuf cfg && sockopt_visible cfg) (ESetsockopt k) in
     if opt_sndbuf cfg && match oe_sndbuf env with SrFail => true | _ => false end
     then (e1 ++ [EClose k], OpenFailedClosed)
     else
-    let e2 := e1 ++ opt_ev (opt_rcvbuf cfg) (ESetsockopt k) in
+    let e2 := e1 ++ opt_ev (opt_rcvbuf cfg && sockopt_visible cfg) (ESetsockopt k) in
     if opt_rcvbuf cfg && match oe_rcvbuf env with SrFail => true | _ => false end
     then (e2 ++ [EClose k], OpenFailedClosed)
     else
-    let e3 := e2 ++ opt_ev (opt_dev cfg) (ESetsockopt k) in      (* failure ignored *)
-    let e4 := e3 ++ opt_ev (opt_bind cfg) (EBind k) in
-    if opt_bind cfg && negb (oe_bind_ok env)
+    let e3 := e2 ++ opt_ev (opt_dev cfg && sockopt_visible cfg) (ESetsockopt k) in      (* failure ignored *)
+    let e4 := e3 ++ opt_ev (opt_bind cfg && has_bind cfg) (EBind k) in       (* bindlen && abind != NULL *)
+    if opt_bind cfg && has_bind cfg && negb (oe_bind_ok env)
     then (e4 ++ [EClose k], OpenFailedClosed)
     else
     (* ares_socket_enable_tfo: TCP only; failure just clears the flag *)
-    let e5 := e4 ++ opt_ev tcp (ESetsockopt k) in
+    let e5 := e4 ++ opt_ev (tcp && sockopt_visible cfg) (ESetsockopt k) in
     let tfo := tcp && oe_tfo_ok env in
     (* ares_conn_connect: retried while interrupted *)
     let e6 := e5 ++ repeat (EConnect k false) (oe_intr env) in
@@ -240,9 +244,10 @@ Definition open_connection (cfg : mcfg) (k : nat) (tcp : bool) (env : open_env) 
     | CnFail => (e6 ++ [EConnect k false; EClose k], OpenFailedClosed)
     | _ =>
       let e7 := e6 ++ [EConnect k true] in
-      (* ares_conn_set_self_ip(early): failure tolerated only for TCP with TFO *)
-      let e8 := e7 ++ [EGetsockname k] in
-      if negb (oe_getsockname_ok env) && negb tfo
+      (* ares_conn_set_self_ip(early): nothing to call without agetsockname (success); a
+         failure is tolerated only for TCP with TFO *)
+      let e8 := e7 ++ opt_ev (has_gsn cfg) (EGetsockname k) in
+      if has_gsn cfg && negb (oe_getsockname_ok env) && negb tfo
       then (e8 ++ [EClose k], OpenFailedClosed)
       else
         let flags := if tfo then 0
@@ -251,12 +256,13 @@ Definition open_connection (cfg : mcfg) (k : nat) (tcp : bool) (env : open_env) 
          OpenOk (mkcs tcp PConnected true flags 0 0 0 tfo false))
     end.
 
-(* find_src_addr (ares_sortaddrinfo.c): UDP socket, connect, getsockname, close *)
-Definition probe (k : nat) (socket_ok : bool) (intr : nat) (connect_ok : bool) : list sevent :=
+(* find_src_addr (ares_sortaddrinfo.c): UDP socket, connect, getsockname, close.  The probe
+   socket is closed on EVERY path, also when the socket functions have no agetsockname. *)
+Definition probe (cfg : mcfg) (k : nat) (socket_ok : bool) (intr : nat) (connect_ok : bool) : list sevent :=
   if negb socket_ok then [ESocketFail]
   else ESocket k false :: repeat (EConnect k false) intr ++       (* ares_socket_connect retries on EINTR *)
        (if negb connect_ok then [EConnect k false; EClose k]
-        else [EConnect k true; EGetsockname k; EClose k]).
+        else [EConnect k true] ++ opt_ev (has_gsn cfg) (EGetsockname k) ++ [EClose k]).
 
 (* ares_close_connection after the unlink and the requeue: final notification, aclose *)
 Definition finish_close (cfg : mcfg) (k : nat) (c : csock) : list sevent * csock :=
@@ -323,7 +329,7 @@ Definition step (cfg : mcfg) (s : cstate) (a : action) : option (cstate * list s
   | AProbe sok intr cok =>
     let k := length (st_socks s) in
     Some (if sok then mkst (st_socks s ++ [mkcs false PClosed false 0 0 0 0 false false]) false else s,
-          probe k sok intr cok)
+          probe cfg k sok intr cok)
   | AQuery k newrw sent =>
     match nth_error (st_socks s) k with
     | Some c =>
